@@ -440,7 +440,15 @@ class DefaultDataManager(DataManager):
                     )
                 )
             )
-        await asyncio.gather(*copy_tasks)
+        try:
+            await asyncio.gather(*copy_tasks)
+        except BaseException:
+            # The copy failed: the destination data locations registered above will never
+            # become available, so invalidate them and wake up whoever is waiting on them
+            for data_location in data_locations:
+                data_location.data_type = DataType.INVALID
+                data_location.available.set()
+            raise
         # Mark all destination data locations as available
         for data_location in data_locations:
             if not writable:
